@@ -75,7 +75,9 @@ func v10fold[T uint8 | int](conv func(int) T) {
 		close(in)
 	})
 	out := Fold(ctx, par, in, monoid.FromOp(e, func(a, b T) T {
-		ops++
+		if vrt.Param("noops", 0) == 0 {
+			ops++
+		}
 		return v10op(e, a, b)
 	}))
 	vrt.Go("consumer", func() {
@@ -91,7 +93,7 @@ func v10fold[T uint8 | int](conv func(int) T) {
 		vrt.Cover("fold.consumer-done")
 	})
 	vrt.Final("fold.complete", func() bool {
-		return got == 1 && ops == vrt.Param("n", 2)+vrt.Param("par", 2) && vrt.Closed(out) && vrt.LibExited() &&
+		return got == 1 && (vrt.Param("noops", 0) == 1 || ops == vrt.Param("n", 2)+vrt.Param("par", 2)) && vrt.Closed(out) && vrt.LibExited() &&
 			vrt.Exited("consumer") && vrt.Exited("producer")
 	})
 }
